@@ -277,6 +277,11 @@ def _query_nodes_contract(it, fv, args, kwargs):
     path, start, root, fc = args[0], lib.T(it, args[1]), lib.T(it, args[2]), lib.T(it, args[3])
     from pyvc.interp import GenVal
 
+    if getattr(it, "flags", {}).get("nested_root_is_current"):
+        # known finding C02-nested-root-identifier built into the spec (contracts listed there only): an embedded
+        # query started at an array or object takes that candidate as its root
+        root = z3.If(z3.Or(Py.is_list(start), Py.is_dict(start)), start, root)
+
 
     m = root_match_term(it, path, start, fc, root)
     nodes = apply_query_term(it, it.to_term(it.getattr(path, "selectors")), m)
